@@ -11,7 +11,9 @@
    self.markHit(n, t[, firstOnly=b])                       SMarkHit b     (default True)
    <graph>.nodes[n][K] = v   (K not a modelled attribute)  SSetAttr
    g = self.network()                                      SSetAttr       (binds a local, no effect)
-   self.postEvent(t + T, n, self.f, name=...)              SPost T k      (k: the program f was given) *)
+   self.postEvent(t + T, n, self.f, name=...)              SPost T k      (k: the program f was given)
+   self.locus(self.L).enterHandler(g, n)                   SEnter i       (i: kernel index of the plain locus L)
+   self.locus(self.L).leaveHandler(g, n)                   SLeave i *)
 From Coq Require Import List ZArith QArith Bool Arith.
 From EpyV Require Import Lib.Prelude Model.Kernel Model.Loci Model.Compart.
 Import ListNotations.
@@ -23,7 +25,9 @@ Inductive stmt :=
 | SMarkOcc (firstOnly : bool)
 | SMarkHit (firstOnly : bool)
 | SSetAttr
-| SPost (T : Q) (k : nat).
+| SPost (T : Q) (k : nat)
+| SEnter (i : nat)
+| SLeave (i : nat).
 
 (* the parameter list is (self, t, n) for events on node loci and (self, t, e) for events on edge loci *)
 Inductive eprog := PNode (body : list stmt) | PEdge (body : list stmt).
@@ -76,6 +80,16 @@ Definition exec (tbl : list Loci.spec) (t : Q) (ed : option (Z * Z)) (s : stmt) 
       | Some n => {| i_w := i_w x; i_n := i_n x; i_posts := i_posts x ++ [APostOn (EN n) T k] |}
       | None => x
       end
+  | SEnter i =>
+      match i_n x with
+      | Some n => {| i_w := i_w x; i_n := i_n x; i_posts := i_posts x ++ [ALAdd i (EN n)] |}
+      | None => x
+      end
+  | SLeave i =>
+      match i_n x with
+      | Some n => {| i_w := i_w x; i_n := i_n x; i_posts := i_posts x ++ [ALDiscard i (EN n)] |}
+      | None => x
+      end
   end.
 
 Definition run_body (tbl : list Loci.spec) (t : Q) (ed : option (Z * Z)) (body : list stmt) (x : ist) : ist :=
@@ -100,32 +114,39 @@ Definition interp (tbl : list Loci.spec) (off : nat) (p : eprog) : dynprog cworl
 
 (* ------------------------------------------------------------------ summaries *)
 (* abstract run: which effects the body has, each at most once; None = outside the fragment *)
-Record asum := { a_bound : bool; a_chg : option Z; a_occ : option bool; a_hit : option bool; a_post : option (Q * nat) }.
+Record asum := { a_bound : bool; a_chg : option Z; a_occ : option bool; a_hit : option bool; a_post : option (Q * nat);
+                 a_lacts : list (bool * nat) }.     (* plain-locus enter (true) / leave (false) calls, in order; none may precede a post *)
 
 Definition aexec (edge : bool) (s : stmt) (a : asum) : option asum :=
   match s with
-  | SUnpack => if edge then Some {| a_bound := true; a_chg := a_chg a; a_occ := a_occ a; a_hit := a_hit a; a_post := a_post a |} else None
+  | SUnpack => if edge then Some {| a_bound := true; a_chg := a_chg a; a_occ := a_occ a; a_hit := a_hit a; a_post := a_post a; a_lacts := a_lacts a |} else None
   | SChange c =>
       match a_bound a, a_chg a with
-      | true, None => Some {| a_bound := true; a_chg := Some c; a_occ := a_occ a; a_hit := a_hit a; a_post := a_post a |}
+      | true, None => Some {| a_bound := true; a_chg := Some c; a_occ := a_occ a; a_hit := a_hit a; a_post := a_post a; a_lacts := a_lacts a |}
       | _, _ => None
       end
   | SMarkOcc fo =>
       match edge, a_occ a with
-      | true, None => Some {| a_bound := a_bound a; a_chg := a_chg a; a_occ := Some fo; a_hit := a_hit a; a_post := a_post a |}
+      | true, None => Some {| a_bound := a_bound a; a_chg := a_chg a; a_occ := Some fo; a_hit := a_hit a; a_post := a_post a; a_lacts := a_lacts a |}
       | _, _ => None
       end
   | SMarkHit fo =>
       match a_bound a, a_hit a with
-      | true, None => Some {| a_bound := true; a_chg := a_chg a; a_occ := a_occ a; a_hit := Some fo; a_post := a_post a |}
+      | true, None => Some {| a_bound := true; a_chg := a_chg a; a_occ := a_occ a; a_hit := Some fo; a_post := a_post a; a_lacts := a_lacts a |}
       | _, _ => None
       end
   | SSetAttr => Some a
   | SPost T k =>
-      match a_bound a, a_post a with
-      | true, None => Some {| a_bound := true; a_chg := a_chg a; a_occ := a_occ a; a_hit := a_hit a; a_post := Some (T, k) |}
-      | _, _ => None
+      match a_bound a, a_post a, a_lacts a with
+      | true, None, [] => Some {| a_bound := true; a_chg := a_chg a; a_occ := a_occ a; a_hit := a_hit a; a_post := Some (T, k); a_lacts := [] |}
+      | _, _, _ => None
       end
+  | SEnter i =>
+      if a_bound a then Some {| a_bound := true; a_chg := a_chg a; a_occ := a_occ a; a_hit := a_hit a; a_post := a_post a; a_lacts := a_lacts a ++ [(true, i)] |}
+      else None
+  | SLeave i =>
+      if a_bound a then Some {| a_bound := true; a_chg := a_chg a; a_occ := a_occ a; a_hit := a_hit a; a_post := a_post a; a_lacts := a_lacts a ++ [(false, i)] |}
+      else None
   end.
 
 Fixpoint arun (edge : bool) (body : list stmt) (a : asum) : option asum :=
@@ -134,21 +155,21 @@ Fixpoint arun (edge : bool) (body : list stmt) (a : asum) : option asum :=
   | s :: body' => match aexec edge s a with Some a' => arun edge body' a' | None => None end
   end.
 
-Definition a0 (bound : bool) : asum := {| a_bound := bound; a_chg := None; a_occ := None; a_hit := None; a_post := None |}.
+Definition a0 (bound : bool) : asum := {| a_bound := bound; a_chg := None; a_occ := None; a_hit := None; a_post := None; a_lacts := [] |}.
 
 (* the summary of Model/Compart.v that the program implements, if it is one of them *)
 Definition summarise (p : eprog) : option hkind :=
   match p with
   | PNode body =>
       match arun false body (a0 true) with
-      | Some {| a_chg := Some c; a_occ := None; a_hit := None; a_post := None |} => Some (HNode c)
-      | Some {| a_chg := None; a_occ := None; a_hit := None; a_post := None |} => Some HNop
+      | Some {| a_chg := Some c; a_occ := None; a_hit := None; a_post := None; a_lacts := [] |} => Some (HNode c)
+      | Some {| a_chg := None; a_occ := None; a_hit := None; a_post := None; a_lacts := [] |} => Some HNop
       | _ => None
       end
   | PEdge body =>
       match arun true body (a0 false) with
-      | Some {| a_chg := Some c; a_occ := Some true; a_hit := Some true; a_post := post |} => Some (HLeft c true post)
-      | Some {| a_chg := Some c; a_occ := None; a_hit := None; a_post := post |} => Some (HLeft c false post)
+      | Some {| a_chg := Some c; a_occ := Some true; a_hit := Some true; a_post := post; a_lacts := [] |} => Some (HLeft c true post)
+      | Some {| a_chg := Some c; a_occ := None; a_hit := None; a_post := post; a_lacts := [] |} => Some (HLeft c false post)
       | _ => None
       end
   end.
@@ -161,13 +182,13 @@ Definition summarise_comp (p : eprog) : option csum :=
   match p with
   | PNode body =>
       match arun false body (a0 true) with
-      | Some {| a_chg := Some c; a_occ := None; a_post := None |} => Some (CNode c)
-      | Some {| a_chg := None; a_occ := None; a_post := None |} => Some CNop
+      | Some {| a_chg := Some c; a_occ := None; a_post := None; a_lacts := [] |} => Some (CNode c)
+      | Some {| a_chg := None; a_occ := None; a_post := None; a_lacts := [] |} => Some CNop
       | _ => None
       end
   | PEdge body =>
       match arun true body (a0 false) with
-      | Some {| a_chg := Some c; a_post := post |} => Some (CLeft c post)
+      | Some {| a_chg := Some c; a_post := post; a_lacts := [] |} => Some (CLeft c post)
       | _ => None
       end
   end.
